@@ -497,6 +497,29 @@ def rule_R11(text, log):
     return pat.sub(repl, text)
 
 
+def rule_R12(text, log):
+    """X.replace(C, "") -> str_remove_char(X, C): `str::replace` is generic over the external trait
+    Pattern; the wrapper is external_body, its body is the same call, its contract is assumed"""
+    pat = re.compile(r'\b([A-Za-z_][A-Za-z0-9_]*)\.replace\(([^(),]+), ""\)')
+
+    def repl(m):
+        new = 'str_remove_char(%s, %s)' % (m.group(1), m.group(2))
+        log.append({'rule': 'R12', 'before': m.group(0), 'after': new})
+        return new
+    return pat.sub(repl, text)
+
+
+def rule_R11b(text, log):
+    """E.parse() (target type inferred as i64) -> parse_i64(&E) where E is a call expression"""
+    pat = re.compile(r'\b(str_remove_char\([^()]*\))\.parse\(\)')
+
+    def repl(m):
+        new = 'parse_i64(&%s)' % m.group(1)
+        log.append({'rule': 'R11b', 'before': m.group(0), 'after': new})
+        return new
+    return pat.sub(repl, text)
+
+
 def rule_R3(text, log):
     """generic writer instantiation"""
     pat = re.compile(r'<W: crate::TomlWrite \+ \?Sized>')
@@ -544,7 +567,7 @@ def rule_R5(text, log):
     return text
 
 
-RULES = {'R9': rule_R9, 'R10': rule_R10, 'R11': rule_R11, 'R1': rule_R1, 'R1f': rule_R1f, 'R3f': rule_R3f, 'R8': rule_R8, 'R2': rule_R2, 'R2b': rule_R2b, 'R7': rule_R7, 'R3': rule_R3, 'R4': rule_R4, 'R5': rule_R5}
+RULES = {'R12': rule_R12, 'R11b': rule_R11b, 'R9': rule_R9, 'R10': rule_R10, 'R11': rule_R11, 'R1': rule_R1, 'R1f': rule_R1f, 'R3f': rule_R3f, 'R8': rule_R8, 'R2': rule_R2, 'R2b': rule_R2b, 'R7': rule_R7, 'R3': rule_R3, 'R4': rule_R4, 'R5': rule_R5}
 
 
 def strip_doc_comments(text):
@@ -864,6 +887,70 @@ def extract_unit(spec_path, repo, out_path, meta_path=None, canary=None):
                 s_start, _, _, s_close = locate(src, 'fn', mname, i_open, i_close)
                 emit_fn(src, '%s::%s' % (ty, mname), s_start, s_close, rel)
             chunks.append(('}\n\n', None))
+        elif kind == 'closure_arg':
+            # the closure passed as the argument of a call located by a regex inside a function,
+            # wrapped in a synthetic signature whose parameter names are the closure's
+            fs, _, fo, fc = locate(src, 'fn', item['within_fn'], lo, hi)
+            lo_off, hi_off = src.tok(fo)[3], src.tok(fc)[2]
+            ms = list(re.compile(item['call']).finditer(src.text, lo_off, hi_off))
+            if len(ms) != 1:
+                raise LostAnchor('closure_arg %s: call /%s/ matches %d times in fn %s' % (
+                    item['name'], item['call'], len(ms), item['within_fn']))
+            i = ms[0].end()
+            depth = 1
+            j = i
+            t = src.text
+            while depth:
+                c = t[j]
+                if c == '(':
+                    depth += 1
+                elif c == ')':
+                    depth -= 1
+                elif c == '"':
+                    j += 1
+                    while t[j] != '"':
+                        j += 2 if t[j] == '\\' else 1
+                elif c == "'" and t[j + 2] == "'":
+                    j += 2
+                j += 1
+            closure = t[i:j - 1].strip()
+            m = re.match(r'\|([^|]*)\|\s*(.*)$', closure, re.S)
+            if not m:
+                raise LostAnchor('closure_arg %s: argument is not a closure: %r' % (item['name'], closure[:60]))
+            params = [re.sub(r':.*$', '', x).strip() for x in m.group(1).split(',') if x.strip()]
+            if params != item['params']:
+                raise LostAnchor('closure_arg %s: closure parameters %r differ from %r' % (item['name'], params, item['params']))
+            raw = m.group(2).strip()
+            line = src.line_of(i)
+            nlog = len(log)
+            body = rewrite(raw)
+            for e in log[nlog:]:
+                e.setdefault('fn', item['name'])
+                e.setdefault('file', rel)
+                e.setdefault('line', line)
+            sig_text = item['signature'].rstrip()
+            full = sig_text + ' {\n    ' + body + '\n}'
+            ft = FnText(item['name'], full, line - 1)
+            if item['name'] in contracts['contract']:
+                ft.inject_contract(contracts['contract'][item['name']])
+                used_contract.add(item['name'])
+            for idx, pr in enumerate(contracts['proof']):
+                if pr['fn'] == item['name']:
+                    ft.inject_proof(pr)
+                    used_proof.add(idx)
+            if canary in ('*', item['name']):
+                ft.inserts.append((len(sig_text) + 3, '    assert(false); // CANARY\n'))
+            for tt, l in ft.render():
+                if isinstance(l, tuple):
+                    chunks.append((tt, ('@spec', l[1])))
+                else:
+                    chunks.append((tt, (rel, l) if l else None))
+            chunks.append(('\n\n', None))
+            functions.append({
+                'fn': item['name'], 'file': rel, 'line_start': line, 'line_end': src.line_of(j),
+                'sha256': hashlib.sha256(raw.encode()).hexdigest(), 'has_contract': True,
+                'loops': 0, 'slice': True, 'synthetic_signature': sig_text, 'closure_of': item['call'],
+            })
         elif kind == 'slice':
             # statement slice between two anchor regexes (inclusive of the lines they match),
             # wrapped in a synthetic signature given in the unit description
